@@ -16,7 +16,7 @@ import (
 func init() {
 	driver.Register(&driver.Engine{
 		ID: "C06", Level: "fault_enumeration",
-		Rule: "matrix {list,dict,set} x iterating construct (for, list/dict comprehension, nested clauses over the same collection, *args, sequence assignment, every discovered iterable-accepting built-in/method incl. key= callbacks, Go push iterators) x exit path (exhaustion, break, continue, return, fail at iteration k, nested-call error, unpack error, host panic, step-limit cancellation at step N) x nesting depth; each cell is one execution with in-iteration probes (every discovered effective mutator must fail and leave the snapshot unchanged) and post-conditions (itercount==0 via VerifState, Go-API mutation succeeds, call stack depth restored, thread reusable). distinct = distinct (arm, kind, construct, exit, k/depth/step) cells in which the monitor actually observed the lock (or the Iterate/Done pair)",
+		Rule:        "matrix {list,dict,set} x iterating construct (for, list/dict comprehension, nested clauses over the same collection, *args, sequence assignment, every discovered iterable-accepting built-in/method incl. key= callbacks, Go push iterators) x exit path (exhaustion, break, continue, return, fail at iteration k, nested-call error, unpack error, host panic, step-limit cancellation at step N) x nesting depth; each cell is one execution with in-iteration probes (every discovered effective mutator must fail and leave the snapshot unchanged) and post-conditions (itercount==0 via VerifState, Go-API mutation succeeds, call stack depth restored, thread reusable). distinct = distinct (arm, kind, construct, exit, k/depth/step) cells in which the monitor actually observed the lock (or the Iterate/Done pair)",
 		Assumptions: []string{"VerifState reads the real frozen/itercount fields (hook)", "canon snapshot distinguishes every observable state of list/dict/set"},
 		Run:         run,
 		MinDistinct: 200,
@@ -30,16 +30,16 @@ type kindInfo struct {
 
 // runState is the host side of one execution.
 type runState struct {
-	c       *driver.Ctx
-	ki      *kindInfo
-	x       starlark.Value
-	cell    string
-	ticks   int
-	probes  int
-	lockObs int // probes that observed itercount >= 1
+	c        *driver.Ctx
+	ki       *kindInfo
+	x        starlark.Value
+	cell     string
+	ticks    int
+	probes   int
+	lockObs  int // probes that observed itercount >= 1
 	mustLock bool
-	fails   []string // "key|what"
-	K       int
+	fails    []string // "key|what"
+	K        int
 }
 
 func (rs *runState) failf(key, format string, args ...any) {
